@@ -150,8 +150,12 @@ def emit_enum(e, enums, out):
 
 
 def cmd_lines(c, enums, depth=0):
-    """Lines (without leading path) that exercise command c, as (line, valid) pairs.
-    valid=True: by construction of the declaration the line is a complete, correct invocation."""
+    """Lines (without leading path) that exercise command c, as (line, tag) pairs.
+    tag True: by construction of the declaration the line is a complete, correct invocation.
+    tag "invalid": by construction the line must be rejected by the derived parser (a command that
+    declares at least one field and gets an undeclared option, an unparsable value or lacks a required
+    argument). tag False: no expectation."""
+    has_fields = bool(c.fields)
     name = c.name()
     q = '"' + name + '"' if " " in name else name
     lines = []
@@ -185,18 +189,19 @@ def cmd_lines(c, enums, depth=0):
             lines.append(((q + " " + " ".join([shortstr(f, f.good_value()) if f.short_char() else optstr(f, f.good_value()) for f in opts if f.required() or f.short_char()] +
                                                [f.good_value() for f in pos if f.required()])).strip(), True))
         if any(f.required() for f in c.fields):
-            lines.append((q, False))  # missing required argument
+            lines.append((q, "invalid"))  # missing required argument
         lines.append((base_ok + " extra1 extra2", False))  # unexpected argument (or fills optionals)
-        lines.append((base_ok + " --zzz", False))  # unexpected long option
-        lines.append((base_ok + " -Z", False))  # unexpected short option
+        lines.append((base_ok + " --zzz", "invalid" if has_fields else False))  # unexpected long option
+        lines.append((base_ok + " -Z", "invalid" if has_fields else False))  # unexpected short option
         for f in pos + opts:
             if f.bad_value():
                 if f.kind == "pos":
                     vals = [g.bad_value() if g is f else g.good_value() for g in pos if g.required() or g is f]
-                    lines.append(((q + " " + " ".join([optstr(g, g.good_value()) for g in opts if g.required()] + vals)).strip(), False))
+                    lines.append(((q + " " + " ".join([optstr(g, g.good_value()) for g in opts if g.required()] + vals)).strip(), "invalid"))
                 else:
                     lines.append(((q + " " + optstr(f, f.bad_value()) + " " +
-                                   " ".join(g.good_value() for g in pos if g.required())).strip(), False))
+                                   " ".join([optstr(g, g.good_value()) for g in opts if g.required() and g is not f] +
+                                            [g.good_value() for g in pos if g.required()])).strip(), "invalid"))
                 break
         shorts = [f.short_char() for f in flags if f.short_char()]
         if len(shorts) >= 1:
@@ -235,6 +240,8 @@ def set_lines(top, enums, groups):
             if c.name() in dup:
                 # an earlier member of the group answers this name: no expectation
                 cl = [(l, False) for (l, _) in cl]
+            if hidden is None:
+                pass
             lines.extend(cl[:11] if len(e.cmds) <= 4 else cl[:5])
             lines.append(("help " + c.name(), False))
             sub = enums[c.sub] if c.sub else (enums[c.tuple_sub] if c.tuple_sub else None)
@@ -242,16 +249,16 @@ def set_lines(top, enums, groups):
                 for sc in sub.cmds[:2]:
                     lines.append(("help " + c.name() + " " + sc.name(), False))
     # de-duplicate, keep order
-    seen, out, valid = set(), [], []
+    seen, out, valid, invalid = set(), [], [], []
     for (l, v) in lines:
         if l not in seen and "\\" not in l:
             seen.add(l)
             out.append(l)
-            if v:
+            if v is True:
                 valid.append(l)
-    # a name claimed by two members of a group is answered by the first: only keep a valid line if
-    # no EARLIER member also has a command of that name with a different shape (none in these families)
-    return out, valid
+            elif v == "invalid":
+                invalid.append(l)
+    return out, valid, invalid
 
 
 def visible_names(top, enums):
@@ -567,10 +574,10 @@ def main():
         out.append("")
 
     out.append("pub static SETS: &[SetMeta] = &[")
-    out.append('    SetMeta { ident: "Raw", names: &[], grouped: false, lines: &["raw 1 2", "x", "cmd \\"a b\\" -f --long -- -v", "help", "help x", "x --help", "a -h b"], valid_lines: &[] },')
+    out.append('    SetMeta { ident: "Raw", names: &[], grouped: false, lines: &["raw 1 2", "x", "cmd \\"a b\\" -f --long -- -v", "help", "help x", "x --help", "a -h b"], valid_lines: &[], invalid_lines: &[] },')
     for t in tops:
         names = visible_names(t, enums)
-        lines, valid = set_lines(t, enums, groups)
+        lines, valid, invalid = set_lines(t, enums, groups)
         out.append("    SetMeta {")
         out.append(f'        ident: "{t.ident}",')
         out.append("        names: &[" + ", ".join(rs_str(n) for n in names) + "],")
@@ -581,6 +588,10 @@ def main():
         out.append("        ],")
         out.append("        valid_lines: &[")
         for l in valid:
+            out.append("            " + rs_str(l) + ",")
+        out.append("        ],")
+        out.append("        invalid_lines: &[")
+        for l in invalid:
             out.append("            " + rs_str(l) + ",")
         out.append("        ],")
         out.append("    },")
